@@ -135,7 +135,7 @@ def farm_unit(u):
         if f == 'poll':
             # Hand._process on a status message: which reply is sent
             sent = []
-            saved = (dawgie.context.fsm, dawgie.context.git_rev, dawgie.pl.message.send)
+            saved = (getattr(dawgie.context, 'fsm', None), dawgie.context.git_rev, dawgie.pl.message.send)
             dawgie.context.fsm = _Fsm(u['active'], False)
             dawgie.context.git_rev = 'rev-a'
             dawgie.pl.message.send = lambda m, h: sent.append(m)
@@ -156,18 +156,38 @@ def farm_unit(u):
                 return {'r': out}
             finally:
                 dawgie.context.fsm, dawgie.context.git_rev, dawgie.pl.message.send = saved
+        if f == 'reg':
+            sent = []
+            saved = (dawgie.context.git_rev, dawgie.pl.message.send, list(farm._workers))
+            dawgie.context.git_rev = 'rev-a'
+            dawgie.pl.message.send = lambda m, h: sent.append(m)
+            farm._workers.clear()
+            try:
+                h = farm.Hand.__new__(farm.Hand)
+                h._abort = dawgie.pl.message.make(typ=dawgie.pl.message.Type.response, suc=False)
+                h._Hand__proceed = dawgie.pl.message.make(typ=dawgie.pl.message.Type.response, suc=True)
+                h.transport = type('T', (), {'loseConnection': lambda self: sent.append('close')})()
+                m = dawgie.pl.message.make(typ=dawgie.pl.message.Type.register, inc=1,
+                                           rev='rev-a' if u['rev_ok'] else 'rev-b')
+                h._process(m)
+                out = ['close' if s == 'close' else 'abort' if s is h._abort
+                       else 'proceed' if s is h._Hand__proceed else 'other' for s in sent]
+                out += ['register'] * sum(1 for w in farm._workers if w is h)
+                return {'r': out}
+            finally:
+                dawgie.context.git_rev, dawgie.pl.message.send = saved[:2]
+                farm._workers.clear()
+                farm._workers.extend(saved[2])
         if f == 'something_to_do':
-            saved = (dawgie.context.fsm, list(farm._agency))
+            saved = (getattr(dawgie.context, 'fsm', None), list(farm._agency))
             dawgie.context.fsm = _Fsm(u['active'], u['crew'])
-            farm._agency.clear()
-            farm._agency.extend([object()] if u['agency'] else [])
+            farm._agency[0] = object() if u['agency'] else None     # the only way the code sets it
             try:
                 r = farm.something_to_do()
                 return {'r': r if type(r) is bool else repr(r)}
             finally:
                 dawgie.context.fsm = saved[0]
-                farm._agency.clear()
-                farm._agency.extend(saved[1])
+                farm._agency[0] = saved[1][0]
         raise RuntimeError('unknown unit ' + f)
     except Exception as e:
         return {'exc': type(e).__name__ + ':' + str(e)[:200]}
